@@ -203,21 +203,48 @@ m = g(r.sub, p.sub, r.dom) && r.obj == p.obj && r.act == p.act
 """
 
 
-def _enf(kind):
+def _enf(kind, filtered=False):
+    """filtered: the permission rules come in through load_filtered_policy of a FilteredFileAdapter AFTER the matching
+    function was registered (the filter keeps all of them): the registered functions must survive that load"""
     casbin = common.use_repo()
     from casbin import util
 
-    if kind == "g2":
-        e = casbin.Enforcer(casbin.Enforcer.new_model(text=RES_ROLE))
-        e.add_named_matching_func("g2", util.key_match2)
-        for grp in ROLES:
-            e.add_policy("alice", grp, "read")
+    prules = [["alice", grp, "read"] for grp in ROLES] if kind == "g2" else [[x, "any", "res_" + x, "read"] for x in ["a", "r", "s"]]
+    text = RES_ROLE if kind == "g2" else DOM
+    if filtered:
+        import tempfile
+
+        from casbin.persist.adapters import FilteredFileAdapter
+        from casbin.persist.adapters.filtered_file_adapter import Filter
+
+        f = tempfile.NamedTemporaryFile("w", prefix="c14f_", suffix=".csv", delete=False)
+        f.write("\n".join(", ".join(["p"] + r) for r in prules) + "\n")
+        f.close()
+        e = casbin.Enforcer(casbin.Enforcer.new_model(text=text), FilteredFileAdapter(f.name))
+        e.enable_auto_save(False)
+        e._verif_tmp = f.name
     else:
-        e = casbin.Enforcer(casbin.Enforcer.new_model(text=DOM))
+        e = casbin.Enforcer(casbin.Enforcer.new_model(text=text))
+    if kind == "g2":
+        e.add_named_matching_func("g2", util.key_match2)
+    else:
         e.add_named_domain_matching_func("g", util.key_match)
-        for x in ["a", "r", "s"]:
-            e.add_policy(x, "any", "res_" + x, "read")
+    if filtered:
+        flt = Filter()
+        flt.P, flt.G = (["alice"], []) if kind == "g2" else (["", "any"], [])
+        e.load_filtered_policy(flt)
+    else:
+        for r in prules:
+            e.add_policy(*r)
     return e
+
+
+def _enf_done(e):
+    import os
+
+    p = getattr(e, "_verif_tmp", None)
+    if p and os.path.exists(p):
+        os.unlink(p)
 
 
 def _enf_step(e, kind, k, l):
@@ -280,8 +307,9 @@ def enforce_probe(ctx, res, n):
             lines.append("\t".join([{"add": "add", "remove": "del", "enforce": "has"}[k]] + [common.enc_str(x) for x in l]))
     answers = rm_corr.run_driver("rm", lines)
     pos = 0
-    for kind, hist in cases:
-        e = _enf(kind)
+    for ci, (kind, hist) in enumerate(cases):
+        filtered = ci % 4 >= 2
+        e = _enf(kind, filtered)
         ans = answers[pos + 3 : pos + 3 + len(hist)]
         pos += 3 + len(hist)
         for i, ((k, l), a) in enumerate(zip(hist, ans)):
@@ -299,24 +327,29 @@ def enforce_probe(ctx, res, n):
                 res.violation(
                     {
                         "signature": f"C14:enforce:{kind}",
-                        "what": f"Enforcer ({'g2(r.obj,p.obj) with key_match2' if kind == 'g2' else 'g(r.sub,p.sub,r.dom) with key_match on domains'}): probe {l} = {got} after {hist[:i]}; the effective assignments give {spec}",
+                        "what": f"Enforcer ({'g2(r.obj,p.obj) with key_match2' if kind == 'g2' else 'g(r.sub,p.sub,r.dom) with key_match on domains'}{', permission rules loaded by load_filtered_policy after the registration' if filtered else ''}): probe {l} = {got} after {hist[:i]}; the effective assignments give {spec}",
                         "enf_kind": kind,
+                        "enf_filtered": filtered,
                         "enf_history": [[k2, list(l2)] for k2, l2 in hist[: i + 1]],
                         "observed": got,
                         "expected": spec,
                         "replay_kind": "enforce",
                     }
                 )
+        _enf_done(e)
     return res
 
 
 def replay_enforce(obj):
-    e = _enf(obj["enf_kind"])
+    e = _enf(obj["enf_kind"], obj.get("enf_filtered", False))
     got = None
-    for k, l in obj["enf_history"]:
-        r = _enf_step(e, obj["enf_kind"], k, tuple(l))
-        if r is not None:
-            got = r
+    try:
+        for k, l in obj["enf_history"]:
+            r = _enf_step(e, obj["enf_kind"], k, tuple(l))
+            if r is not None:
+                got = r
+    finally:
+        _enf_done(e)
     return got != obj["expected"]
 
 
